@@ -476,6 +476,15 @@ func runScenario(k *mon.Case, sp spec) {
 	quiet := waitNoProtocolGoroutines()
 	if !quiet {
 		k.Inconclusive("no-quiescence-after-case")
+	} else {
+		// taking resMu once more orders this goroutine after every finished onResponse (each
+		// released resMu after its failpoint evaluation), so that gofail's unlocked counter can
+		// be read below without a (harness-made) data race
+		k.Watch("VerifPending-after-stop", watchdog, func() {
+			for i := range sc.mps {
+				sc.mps[i].Load().VerifPending()
+			}
+		})
 	}
 
 	// (3) failpoint activations (only read at quiescence: Status reads the counter unlocked)
